@@ -300,7 +300,7 @@ impl<R: Round> Context<R> {
         let is_sub = lhs.significand.sign() != rhs_sign * rhs.significand.sign();
         let rnd_precision = self.precision + is_sub as usize;
 
-        let ediff = (lhs.exponent - rhs.exponent) as usize;
+        let ediff = (lhs.exponent as i128 - rhs.exponent as i128) as usize; // the difference can exceed isize::MAX
         let ldigits = lhs.digits();
         let rdigits_est = rhs.digits_ub(); // overestimate
 
@@ -308,7 +308,7 @@ impl<R: Round> Context<R> {
         let low: (IBig, usize); // (value of low part, precision of the low part)
         let (significand, exponent) = if self.is_limited()
             && rdigits_est + 1 < ediff
-            && rdigits_est + 1 + rnd_precision < ldigits + ediff
+            && ((rdigits_est + 1 + rnd_precision) as u128) < ldigits as u128 + ediff as u128 // the sum can exceed usize::MAX
         {
             // if rhs is much smaller than lhs, direct round on the rhs
             /*
@@ -400,7 +400,7 @@ impl<R: Round> Context<R> {
         let is_sub = lhs.significand.sign() != rhs_sign * rhs.significand.sign();
         let rnd_precision = self.precision + is_sub as usize;
 
-        let ediff = (rhs.exponent - lhs.exponent) as usize;
+        let ediff = (rhs.exponent as i128 - lhs.exponent as i128) as usize; // the difference can exceed isize::MAX
         let rdigits = rhs.digits();
         let ldigits_est = lhs.digits_ub();
 
@@ -408,7 +408,7 @@ impl<R: Round> Context<R> {
         let low: (IBig, usize);
         let (significand, exponent) = if self.is_limited()
             && ldigits_est + 1 < ediff
-            && ldigits_est + 1 + rnd_precision < rdigits + ediff
+            && ((ldigits_est + 1 + rnd_precision) as u128) < rdigits as u128 + ediff as u128 // the sum can exceed usize::MAX
         {
             // if lhs is much smaller than rhs, direct round on the lhs
             let low_prec = if rdigits >= rnd_precision {
